@@ -166,3 +166,26 @@ package lfs
 //@   ensures result1 == nil ==> result0 != nil && fexists(file) && len(fdata(file)) < 1024
 //@   ensures result1 == nil && len(fdata(file)) > 0 ==> decodes_ok(str_trim(fdata(file))) && result0.Oid == ptr_oid(str_trim(fdata(file)))
 //@   ensures err_notexist(result1) ==> !fexists(file)
+
+// C04 / C01 (smudge side, partial): a local object is only streamed into the
+// working tree when it exists and has exactly the size the pointer records.
+//@ func (*GitFilter).Smudge
+//@   props C04
+//@   requires @inv ptr != nil
+//@   at call (*lfs.GitFilter).readLocalFile:1 assert fexists(arg3__) && len(fdata(arg3__)) == ptr.Size
+//@ func LinkOrCopyFromReference
+//@   assumed
+//@   props C04
+//@   modifies fresh, ghost fexists, ghost fdata
+//@ func (*GitFilter).readLocalFile
+//@   assumed
+//@   props C04
+//@   modifies all
+//@ func (*GitFilter).downloadFile
+//@   assumed
+//@   props C04
+//@   modifies all
+//@ func (*GitFilter).downloadFileFallBack
+//@   assumed
+//@   props C04
+//@   modifies all
